@@ -147,7 +147,6 @@ static void build_all() {
 		TMCG_Stack<TMCG_Card> qs; TMCG_Stack<VTMF_Card> vs; TMCG_StackSecret<TMCG_CardSecret> qss; TMCG_StackSecret<VTMF_CardSecret> vss;
 		for (size_t i = 0; i < 3; i++) { TMCG_Card c(2, 3); tm.TMCG_CreateOpenCard(c, *W.ring, i); qs.push(c); VTMF_Card v; tm.TMCG_CreateOpenCard(v, W.vP, i); vs.push(v); }
 		tm.TMCG_CreateStackSecret(qss, false, *W.ring, 0, 3); tm.TMCG_CreateStackSecret(vss, false, 3, W.vP);
-		TMCG_Card q1(1, 1); tm.TMCG_CreateOpenCard(q1, *W.ring, 0);   // smallest dimensions
 		tl_rng = old;
 		struct { const char *n; RunFn s, io; std::vector<std::string> seeds; } imps[] = {
 			{"card-qr", imp_string<TMCG_Card>, imp_stream<TMCG_Card>, {str_of(qc), "crd|1|1|4|"}},
